@@ -103,6 +103,35 @@ fn ladder_key(state: &mut u64, i: u64, out: &mut Vec<u8>) -> u64 {
     z.wrapping_mul(0xBF58_476D_1CE4_E5B9) >> 16
 }
 
+/// Ladder variants with varying key lengths: kind 1 = every second key is 12
+/// bytes longer than its neighbours (lengths go down and up all the time);
+/// kind 2 = every second key is its predecessor plus one byte (a key that is a
+/// proper prefix of its successor: the key-end node gets a transition later).
+pub fn run_ladder_kind(geom: Geom, is_set: bool, n: u64, kind: u8) -> Result<Trace, String> {
+    let mut state = 0u64;
+    let mut prev: Vec<u8> = vec![];
+    run_history(geom, 5, 30, is_set, n, &mut |i, out| {
+        if kind == 2 && i % 2 == 1 {
+            out.clear();
+            out.extend_from_slice(&prev);
+            out.push(b's');
+            return mix_val(i);
+        }
+        let v = ladder_key(&mut state, i, out);
+        if kind == 1 && i % 2 == 1 {
+            out.extend_from_slice(b"tttttttttttt");
+        }
+        prev.clear();
+        prev.extend_from_slice(out);
+        v
+    })
+}
+
+fn mix_val(i: u64) -> u64 {
+    let z = i.wrapping_mul(0x9E37_79B9_7F4A_7C15);
+    (z ^ (z >> 29)).wrapping_mul(0xBF58_476D_1CE4_E5B9) >> 16
+}
+
 pub fn run_ladder(geom: Geom, is_set: bool, n: u64) -> Result<Trace, String> {
     let mut state = 0u64;
     run_history(geom, 4, 16, is_set, n, &mut |i, out| ladder_key(&mut state, i, out))
@@ -145,6 +174,9 @@ pub fn replay(case: &Value) -> Result<String, String> {
     if let Some(n) = case["wide_prefixes"].as_u64() {
         return run_wide_ladder(geom, is_set, n).map(|t| format!("peak live {} bytes for {} wide nodes", t.max_live, n));
     }
+    if let (Some(n), Some(kind)) = (case["ladder_n"].as_u64(), case["ladder_kind"].as_u64()) {
+        return run_ladder_kind(geom, is_set, n, kind as u8).map(|t| format!("peak live {} bytes for N={}", t.max_live, n));
+    }
     if let Some(n) = case["ladder_n"].as_u64() {
         run_ladder(geom, is_set, n).map(|t| format!("peak live {} bytes for N={}", t.max_live, n))
     } else {
@@ -155,7 +187,7 @@ pub fn replay(case: &Value) -> Result<String, String> {
 pub fn plan(tier: Tier) -> Plan {
     let mut p = Plan::new("C13", "exploration");
     let thorough = tier.thorough();
-    p.rule = "counting allocator with per-thread counters; the builder streams to a discarding sink. (1) exhaustive: under the tiny cache geometries 1x1, 1x2, 2x2, 3x3 (cache saturated after a handful of inserts, i.e. the regime 'evicting on every miss' is reachable) every subset of U_ab3 as set and map, and every prefix of the sorted universes {a,b}^<=6 and {a,b,c,d}^<=4: after (and at the peak during) EVERY insert and finish the builder's live heap <= B(rows,cols,F,L) = heap_after_new + 2*(cells*(max(4,2F)*24+32) + (L+2)*(max(4,2F)*24+32) + [2(L+2)*80 if L+2>64] + 2L) + 512, which has no term in the number of keys; after finish everything is freed. (2) finite ladder (not exhaustive): 16-byte keys over {a..d} with irregular gaps and non-shareable values, sets and maps, N in {1e4,1e5,2e5,4e5} (thorough: 1e6,4e6,1e7), geometries 1x1, 2x2, 100x2 and the default 10000x2, and a wide-node ladder (250..5000 (thorough 100000) distinct nodes of fan-out 40, the node form with an index table): peak live <= B for every N and, for geometries with <= 200 cells, |peak(N_{i+1}) - peak(N_i)| <= 1 KiB. non-trivial = histories with >= 8 keys".into();
+    p.rule = "counting allocator with per-thread counters; the builder streams to a discarding sink. (1) exhaustive: under the tiny cache geometries 1x1, 1x2, 2x2, 3x3 (cache saturated after a handful of inserts, i.e. the regime 'evicting on every miss' is reachable) every subset of U_ab3 as set and map, and every prefix of the sorted universes {a,b}^<=6 and {a,b,c,d}^<=4: after (and at the peak during) EVERY insert and finish the builder's live heap <= B(rows,cols,F,L) = heap_after_new + 2*(cells*(max(4,2F)*24+32) + (L+2)*(max(4,2F)*24+32) + [2(L+2)*80 if L+2>64] + 2L) + 512, which has no term in the number of keys; after finish everything is freed. (2) finite ladder (not exhaustive): 16-byte keys over {a..d} with irregular gaps and non-shareable values, sets and maps, N in {1e4,1e5,2e5,4e5} (thorough: 1e6,4e6,1e7), geometries 1x1, 2x2, 100x2 and the default 10000x2, two ladders with varying key lengths (alternating 16/28-byte keys; keys that are proper prefixes of their successors), and a wide-node ladder (250..5000 (thorough 100000) distinct nodes of fan-out 40, the node form with an index table): peak live <= B for every N and, for geometries with <= 200 cells, |peak(N_{i+1}) - peak(N_i)| <= 1 KiB. non-trivial = histories with >= 8 keys".into();
     p.assumptions = vec![
         "'for all N' beyond the ladder is not decided by a bounded exploration; the ladder is a finite family and is reported as such".into(),
         "heap attributable to the builder = sum over its API calls of the change of the thread's live bytes (harness allocations are outside the measured calls)".into(),
@@ -247,6 +279,30 @@ pub fn plan(tier: Tier) -> Plan {
             }
         }
     }
+    // ladders with varying key lengths (kind 1: alternating lengths, kind 2: prefix pairs)
+    let kind_peaks: Arc<Mutex<BTreeMap<(u8, Geom, bool, u64), i64>>> = Arc::new(Mutex::new(BTreeMap::new()));
+    for kind in [1u8, 2] {
+        for g in [(1usize, 1usize), (2, 2), (100, 2), (10_000, 2)] {
+            for is_set in [true, false] {
+                for &n in &ns {
+                    let kind_peaks = kind_peaks.clone();
+                    p.units.push(unit("varying-key-length-ladders-(finite-family)", format!("ladder kind {} {:?} set={} N={}", kind, g, is_set, n), move |st, rep| {
+                        st.evals += 1;
+                        st.states += n + 2;
+                        st.transitions += n + 2;
+                        st.nontrivial += 1;
+                        match run_ladder_kind(g, is_set, n, kind) {
+                            Ok(t) => {
+                                st.count("varying_length_ladder_points", 1);
+                                kind_peaks.lock().unwrap().insert((kind, g, is_set, n), t.max_live);
+                            }
+                            Err(msg) => rep.violation(format!("ladder kind {} {:?} set={} N={}", kind, g, is_set, n), msg, json!({"ladder_n": n, "ladder_kind": kind, "geom": [g.0, g.1], "set": is_set})),
+                        }
+                    }));
+                }
+            }
+        }
+    }
     // wide-node ladder (fan-out 40)
     let wide_ps: Vec<u64> = if thorough { vec![250, 2_500, 5_000, 25_000, 100_000] } else { vec![250, 2_500, 5_000] };
     let wide_peaks: Arc<Mutex<BTreeMap<(Geom, bool, u64), i64>>> = Arc::new(Mutex::new(BTreeMap::new()));
@@ -272,7 +328,29 @@ pub fn plan(tier: Tier) -> Plan {
     }
     let ns2 = ns.clone();
     let wide_ps2 = wide_ps.clone();
+    let ns3 = ns.clone();
     p.finish = Some(Box::new(move |st, rep| {
+        {
+            let pk = kind_peaks.lock().unwrap();
+            st.samples.push(json!({"varying_length_ladder_peaks": pk.iter().map(|((k, g, s, n), v)| json!({"kind": k, "geom": format!("{}x{}", g.0, g.1), "set": s, "N": n, "peak_live_bytes": v})).collect::<Vec<_>>()}));
+            for kind in [1u8, 2] {
+                for g in [(1usize, 1usize), (2, 2), (100, 2)] {
+                    for is_set in [true, false] {
+                        for w in ns3.windows(2) {
+                            if let (Some(a), Some(b)) = (pk.get(&(kind, g, is_set, w[0])), pk.get(&(kind, g, is_set, w[1]))) {
+                                if (a - b).abs() > 1024 {
+                                    rep.violation(
+                                        format!("plateau kind {} {:?} set={} N={}..{}", kind, g, is_set, w[0], w[1]),
+                                        format!("peak live heap is {} bytes for N={} but {} for N={} (cache {}x{}, {}): it grows with the number of keys", a, w[0], b, w[1], g.0, g.1, if kind == 1 { "alternating key lengths" } else { "keys that are prefixes of their successors" }),
+                                        json!({"ladder_n": w[1], "ladder_kind": kind, "geom": [g.0, g.1], "set": is_set}),
+                                    );
+                                }
+                            }
+                        }
+                    }
+                }
+            }
+        }
         {
             let pk = wide_peaks.lock().unwrap();
             st.samples.push(json!({"wide_ladder_peaks": pk.iter().map(|((g, s, n), v)| json!({"geom": format!("{}x{}", g.0, g.1), "set": s, "wide_nodes": n, "peak_live_bytes": v})).collect::<Vec<_>>()}));
